@@ -991,3 +991,69 @@ func c13R25(c *Ctx, r *Report) {
 	}
 	r.Floor(rule, n, 1, "arbitrary-precision float parses")
 }
+
+// ---- C01.R21: the converted operand is the one that is passed on ------------------------------------------------
+
+func init() {
+	lateInits = append(lateInits, func() {
+		props["C01"].Quick = append(props["C01"].Quick, c01R21)
+		props["C11"].Quick = append(props["C11"].Quick, c01R21)
+		props["C01"].Explanation += " (R21) in emitStringConcat every switch clause that converts the right operand (`right = b.castValue(right, …)`) rebuilds the argument list from the converted value: the run-time function is not handed the operand in its old representation."
+	})
+}
+
+func c01R21(c *Ctx, r *Report) {
+	const rule = "C01.R21"
+	r.Describe(rule, "mir/gen.emitStringConcat: in each case clause that assigns `right` from castValue, an assignment to the argument list that mentions right follows in the same clause")
+	fn := c.LookupFn(pkgMIRGen, "(*functionBuilder).emitStringConcat")
+	cast := c.LookupFn(pkgMIRGen, "(*functionBuilder).castValue")
+	if !r.Anchor(rule, fn != nil && cast != nil && fn.Decl.Body != nil, "mir/gen emitStringConcat / castValue") {
+		return
+	}
+	info := fn.Info()
+	right := fn.ParamNamed("right")
+	if !r.Anchor(rule, right != nil, "emitStringConcat(left, right, …)") {
+		return
+	}
+	n := 0
+	ast.Inspect(fn.Decl.Body, func(x ast.Node) bool {
+		cc, ok := x.(*ast.CaseClause)
+		if !ok {
+			return true
+		}
+		var castPos token.Pos
+		for _, st := range cc.Body {
+			ast.Inspect(st, func(y ast.Node) bool {
+				if as, ok := y.(*ast.AssignStmt); ok && len(as.Lhs) == 1 && len(as.Rhs) == 1 && objOf(info, as.Lhs[0]) == right {
+					if cl, ok := ast.Unparen(as.Rhs[0]).(*ast.CallExpr); ok && isCallTo(info, cl, cast.Obj) {
+						castPos = as.Pos()
+					}
+				}
+				return true
+			})
+		}
+		if castPos == token.NoPos {
+			return true
+		}
+		n++
+		rebuilt := false
+		for _, st := range cc.Body {
+			ast.Inspect(st, func(y ast.Node) bool {
+				if as, ok := y.(*ast.AssignStmt); ok && as.Pos() > castPos && len(as.Lhs) == 1 {
+					if id, ok := as.Lhs[0].(*ast.Ident); ok && id.Name == "args" && mentionsVar(info, as.Rhs[0], right) {
+						rebuilt = true
+					}
+				}
+				return true
+			})
+		}
+		label := "default"
+		if len(cc.List) > 0 {
+			label = exprStr(cc.List[0])
+		}
+		r.Check(rebuilt, rule, fn.Name(), "case "+label+": the argument list is rebuilt after the conversion", c.pos(cc.Pos()),
+			"the right operand is converted but the call still receives the unconverted value: `let f: f32 = 1.5; io::Println(\"v=\" + f);` hands the f32 bit pattern to the f64 concat function and prints garbage")
+		return true
+	})
+	r.Floor(rule, n, 3, "converting clauses of emitStringConcat")
+}
